@@ -770,6 +770,37 @@ fn w_crypt_keylen() -> bool {
     false
 }
 
+/// C09: several saves in a row, with a reload in between, on a document WITHOUT an /Info dictionary
+fn w_save_reload_save() -> bool {
+    use pdf::file::FileOptions;
+    use pdf::object::*;
+    let data = mkpdf(&[(1, CATALOG), (2, PAGES), (3, PAGE), (4, "132")], "");
+    let mut file = FileOptions::uncached().load(data).unwrap();
+    file.update(PlainRef { id: 4, gen: 0 }, 777i32).unwrap();
+    let save = |file: &mut pdf::file::File<Vec<u8>, _, _, _>, tag: &str| -> std::result::Result<Vec<u8>, String> {
+        let path = std::env::temp_dir().join(format!("verif_w_srs_{}.pdf", tag));
+        let r = file.save_to(&path).map_err(|e| e.to_string());
+        let d = std::fs::read(&path).unwrap_or_default();
+        let _ = std::fs::remove_file(&path);
+        r.map(|_| d)
+    };
+    let first = save(&mut file, "1");
+    println!("first save: {:?}", first.as_ref().map(|d| d.len()).map_err(|e| e.chars().take(80).collect::<String>()));
+    let first = match first { Ok(d) => d, Err(_) => return true };
+    let mut re = match FileOptions::uncached().load(first) {
+        Ok(f) => f,
+        Err(e) => { println!("reload failed: {}", e); return true }
+    };
+    re.update(PlainRef { id: 4, gen: 0 }, 888i32).unwrap();
+    let second = save(&mut re, "2");
+    println!("second save (after reload + update): {:?} (expected Ok)", second.as_ref().map(|d| d.len()).map_err(|e| e.chars().take(100).collect::<String>()));
+    let second = match second { Ok(d) => d, Err(_) => return true };
+    let r2 = FileOptions::uncached().load(second).map_err(|e| e.to_string())
+        .and_then(|f| f.resolver().resolve(PlainRef { id: 4, gen: 0 }).map(|p| format!("{:?}", p)).map_err(|e| e.to_string()));
+    println!("reload of the second save: {:?} (expected Ok(\"Integer(888)\"))", r2);
+    !matches!(r2, Ok(ref s) if s == "Integer(888)")
+}
+
 fn main() {
     let all: Vec<(&str, fn() -> bool)> = vec![
         ("lzw_predictor", w_lzw_predictor),
@@ -784,6 +815,7 @@ fn main() {
         ("conc_assert_poison", w_conc_assert_poison),
         ("conc_deadlock", w_conc_deadlock),
         ("save_prefix", w_save_prefix),
+        ("save_reload_save", w_save_reload_save),
         ("update_compressed", w_update_compressed),
         ("failed_save_retry", w_failed_save_retry),
         ("name_escape", w_name_escape),
